@@ -115,7 +115,7 @@ Inductive cop :=
 | CSpawn (i : N) (r : N) (nranges : nat) (* thread i enters Backend.Compact(r): clamp, then parks before its first engine call *)
 | CThread (i : N) (ph : cphase)          (* thread i performs the engine call it is parked at (observed: which one) *)
 (* a range read overlapping compactions: two steps - the check of the compaction record, then the scan (the iterators
-   are opened after the check; only on TiKV are they bound to a timestamp taken before it) *)
+   are opened after the check; only on TiKV are they bound to a timestamp taken before it) followed by a second check *)
 | CRSpawn (i : N) (rev : N)              (* thread i enters a range read at explicit revision rev, parks before the check *)
 | CReadCheck (i : N) (rev : N)           (* ... reads the record: refused, or parks before opening its iterators *)
 | CReadScan (i : N) (rev : N).           (* ... scans and answers *)
@@ -242,9 +242,9 @@ Definition xstep (s : xstate) (op : cop) : xstate * cobs :=
   | CReadScan i _ =>
       match find_thr i (x_thr s) with
       | Some (TReadScan rev) =>
-          (* the scan is not preceded or followed by another look at the record: it answers with what its iterators,
-             opened now, find (finding C08-F2) *)
-          (mkX (x_c s) (drop_thr i (x_thr s)), ORead RData)
+          (* after its workers have finished the scan reads the record once more: a compaction above rev that started
+             in between has recorded its revision before deleting anything, and the read is refused *)
+          (mkX (x_c s) (drop_thr i (x_thr s)), ORead (race_read (c_rec (x_c s)) rev))
       | _ => (s, OWrite)
       end
   | _ => let '(c', o) := cstep (x_c s) op in (mkX c' (x_thr s), o)
